@@ -25,7 +25,7 @@ PROPS.update({
         rule="scenario lines: for each base exchange (all widths, text, extreme addresses, short check bytes) every single-character substitution (16 hex digits, ':', newline, 'A', non-hex), deletion, truncation, insertion, random two-character corruptions (incl. check-byte-preserving), all 16 response nibbles, foreign addresses, all 256 flags, splices, noise/async around, lower-case hex, short check-byte-valid frames; device-id frames likewise; spread over 1..8 attempts and chunkings. non-trivial = the call did not simply give up after 8 unanswered attempts' worth of plain rejection, i.e. outcome is a value, a device error or fewer than 8 frames",
         trusted_base=[KERNEL, HARNESS, GOSTD, MODEL_PROTO],
         assumptions=["bufio.Reader behaves as an unbounded buffer for pending streams < 4096 bytes", CLOCK],
-        explanation="theorems: veCommand_sound, get_sound/getRaw_sound (value only from a complete valid type-7 frame with the requested address, flag 0, correct check byte pending after some attempt's command; payload decoded exactly), uint/int/string_sound, deviceId_sound, reject_{truncated,wrong_type,odd_length,non_hex,bad_check_byte,foreign_address,nonzero_flag}"),
+        explanation="theorems: veCommand_sound, get_sound/getRaw_sound (value only from a complete valid type-7 frame with the requested address, flag 0, correct check byte pending after some attempt's command; payload decoded exactly), get_sound_received (the accepting state is the one reached from the call's state by attempts that all retried, and what was pending there is a subsequence of the bytes pending at the call followed by the replies the port delivered since: bytes are dropped, never invented or reordered), uint/int/string_sound, deviceId_sound, reject_{truncated,wrong_type,odd_length,non_hex,bad_check_byte,foreign_address,nonzero_flag}"),
     "C02": dict(PROTO, suites=["c02"], trivial=r"^$", exhaustive={"quick": False, "thorough": True},
         rule="exhaustive 1-byte values (6 addresses x both accessors), 2-byte values (every 5th + boundaries in quick, all 65536 in thorough), boundary and random 4/8-byte values on random addresses, uninterpretable widths, all strings of length <= 1 (<= 2 thorough) with NUL padding, random strings up to 64 bytes with interior NULs, device ids (every 3rd quick / all 65536 thorough), call histories on one driver with every returned []byte retained and re-compared at the end (aliasing clause); distinct = distinct operation lines",
         trusted_base=[KERNEL, HARNESS, GOSTD, MODEL_PROTO],
